@@ -127,7 +127,7 @@ class _Env:
         logging.getLogger("mitmproxy.addonmanager").addHandler(H())
         logging.getLogger("mitmproxy.addonmanager").propagate = False
         logging.getLogger("mitmproxy.addons.block").setLevel(logging.CRITICAL)
-        logging.getLogger("root").setLevel(logging.CRITICAL)
+        logging.getLogger("mitmproxy.addonmanager").setLevel(logging.ERROR)
 
         class Handler(mode_servers.ProxyConnectionHandler):
             def __init__(s, *a):
@@ -193,8 +193,8 @@ class Check(PropertyCheck):
             "mapped) / 5 IPv6 notations, crossed with the 4 option pairs and 9 proxy modes (quick: rotating subset of modes "
             "per address, both local and non-local always present); then random addresses inside random intervals and "
             "mutated/raw peer texts. distinct = (peer text, mode, options); all are non-trivial.")
-    budget = {"quick": 30000, "thorough": 400000}
-    time_budget = {"quick": 35, "thorough": 600}
+    budget = {"quick": 30000, "thorough": 500000}
+    time_budget = {"quick": 28, "thorough": 600}
     fingerprints = ["mitmproxy.addons.block:Block.client_connected",
                     "mitmproxy.proxy.server:ConnectionHandler.handle_client",
                     "mitmproxy.proxy.mode_servers:ProxyConnectionHandler.handle_hook",
@@ -206,7 +206,7 @@ class Check(PropertyCheck):
     trusted_base = ["CPython ipaddress: is_loopback/is_private/is_global are network-membership tests over the module's "
                     "constants (so constant between the generated boundary points)",
                     "AddonManager swallows (logs) exceptions raised by an addon hook"]
-    parallel = True
+    parallel = False   # one case is ~0.5 ms; the fork pool only adds overhead here
 
     # ---------------- translator ----------------
     def translate(self):
@@ -279,10 +279,14 @@ class Check(PropertyCheck):
                 if "scoped" in c["note"]: c["zone"] = rng.pick(ZONES)
                 yield c
             else:
-                base = rng.pick(texts) if rng.chance(0.3) else peer_text(
-                    {"k": "addr", "fam": rng.pick([4, 6]), "n": str(rng.getrandbits(rng.pick([8, 32, 48, 128]))),
-                     "note": "plain"} if rng.chance(0.5) else
-                    {"k": "addr", "fam": 4, "n": str(rng.getrandbits(32)), "note": rng.pick(NOTES4)}).encode()
+                if rng.chance(0.3):
+                    base = rng.pick(texts)
+                elif rng.chance(0.5):
+                    base = peer_text({"k": "addr", "fam": 6, "n": str(rng.getrandbits(rng.pick([8, 32, 48, 128]))),
+                                      "note": rng.pick(NOTES6)}).encode()
+                else:
+                    base = peer_text({"k": "addr", "fam": 4, "n": str(rng.getrandbits(32)),
+                                      "note": rng.pick(NOTES4)}).encode()
                 b = bytearray(base)
                 for _ in range(rng.randint(1, 3)):
                     op = rng.randint(0, 2)
